@@ -191,6 +191,11 @@ func (p *Prog) bindClosure(parent *ssa.Function, fc *FuncContract) *ssa.Function
 }
 
 func mentions(fn *ssa.Function, name string) bool {
+	for _, fv := range fn.FreeVars {
+		if fv.Name() == name {
+			return true
+		}
+	}
 	for _, b := range fn.Blocks {
 		for _, in := range b.Instrs {
 			switch in := in.(type) {
